@@ -30,3 +30,11 @@ Record go_func := { gf_name : str; gf_sig : sig }.
 
 (** sig.Results().At(k).Type(): go/types panics past the end; the model's invalid type there *)
 Definition go_nth_type (l : list ty) (k : nat) : ty := nth k l invalid_ty.
+
+(** classes of go/types a types.Type is asserted to (t.( *types.Pointer) ...), and Elem() *)
+Definition go_is_pointer (t : ty) : bool := match t with TPtr _ _ => true | _ => false end.
+Definition go_is_slice (t : ty) : bool := match t with TSlice _ _ => true | _ => false end.
+Definition go_is_basic (t : ty) : bool := match t with TBasic _ _ => true | _ => false end.
+Definition go_is_named (t : ty) : bool := match t with TNamed _ => true | _ => false end.
+Definition go_is_struct (t : ty) : bool := match t with TStruct _ _ => true | _ => false end.
+Definition go_type_elem (t : ty) : ty := match t with TPtr _ e => e | TSlice _ e => e | _ => invalid_ty end.
